@@ -453,7 +453,12 @@ def run(facts, rep, tier):
                         "arrive with an inlined note are written relative to the host's directory.")
     from .c06 import _MultiOnly
     c15.rule_r3(facts, _MultiOnly(rep, ("constructs-projector", "keeps-parent")), "C09-R3b")
-
+    rep.rule("C09-R5", "= C15-R3, C14-R3 / R5: the notes an action creates, updates and deletes are addressed through Key::parent / Key::to_path, which must use the "
+             "path algebra of the reader (directory = up to the last `/`, file = key + `.md`, dots in names are not extensions).")
+    from . import c15 as _c15, c14 as _c14
+    _c15.rule_r3(facts, rep, "C09-R5")
+    _c14.rule_r3(facts, rep, "C09-R5b")
+    _c14.rule_r5(facts, rep, "C09-R5c")
 
 class _Sub:
     """Forwards to a Report but keeps only instances located in the refactoring actions."""
